@@ -507,6 +507,14 @@ impl GrafeoDB {
         &self.store
     }
 
+    /// verif-hooks (H5): the database's transaction manager, so that the
+    /// verification harness can register writes / provoke commit failures.
+    #[cfg(feature = "verif-hooks")]
+    #[must_use]
+    pub fn verif_tx_manager(&self) -> &Arc<TransactionManager> {
+        &self.tx_manager
+    }
+
     /// Returns the buffer manager for memory-aware operations.
     #[must_use]
     pub fn buffer_manager(&self) -> &Arc<BufferManager> {
